@@ -212,13 +212,20 @@ class Model:
             self.load_calls.append((k, time, angular_position, angular_speed))
             v = load_value(self.load, k, si.q_si(time), si.q_si(angular_position),
                            si.q_si(angular_speed))
-            return Torque(si.convert(v, 'Torque', 'Nm', self.load_unit), self.load_unit)
+            # load_unit may be a list: the user's function answers in another unit at every instant
+            lu = self.load_unit if isinstance(self.load_unit, str) else self.load_unit[max(k, 0) % len(self.load_unit)]
+            return Torque(si.convert(v, 'Torque', 'Nm', lu), lu)
 
-        last.external_torque = external_torque
+        self._external_torque = external_torque
+        if not spec.get('defer_load'):
+            last.external_torque = external_torque       # ('defer_load': the user forgets it at first, see attach_load)
         self.pt = Powertrain(motor=self.elements[0])
         self.solver = Solver(powertrain=self.pt)
         self.control = None
         self.apply_init()
+
+    def attach_load(self):
+        self.elements[-1].external_torque = self._external_torque
 
     def apply_init(self):
         init = self.spec.get('init') or {'theta': [0.0, 'rad'], 'w': [0.0, 'rad/s']}
